@@ -201,8 +201,17 @@ tainted_opaque<int*, SBX> vb_cb3(rlbox_sandbox<SBX>&, tainted_opaque<unsigned lo
 void vb_cb4(rlbox_sandbox<SBX>&, tainted<VbS2, SBX> s) { (void)s; }
 tainted<unsigned short, SBX> vb_cb5(rlbox_sandbox<SBX>&, tainted<long long, SBX>, tainted<double, SBX>, tainted<bool, SBX>, tainted<void*, SBX>, tainted<int (*)(int), SBX>) { return (unsigned short)0; }
 
+// sandbox_static_cast over integer pairs (both wrapper kinds as the source)
+template<class L, class R> void vb_scast1(rlbox_sandbox<SBX>& s)
+{
+  tainted<R, SBX> t{}; auto a = sandbox_static_cast<L>(t); auto b = sandbox_static_cast<L>(*(&*s.template malloc_in_sandbox<R>())); (void)a; (void)b;
+}
+template<class L, class... Rs> void vb_scastrow(rlbox_sandbox<SBX>& s) { (vb_scast1<L, Rs>(s), ...); }
+template<class... Ts> void vb_scastall(rlbox_sandbox<SBX>& s) { (vb_scastrow<Ts, Ts...>(s), ...); }
+
 void vb_invoke(rlbox_sandbox<SBX>& s)
 {
+  vb_scastall<signed char, unsigned char, short, unsigned short, int, unsigned int, long, unsigned long, long long, unsigned long long>(s);
   tainted<VbS1*, SBX> ps = s.malloc_in_sandbox<VbS1>();
   tainted<VbS1, SBX> sv = *ps; *ps = sv; auto& vs = *ps;
   auto& f_fl = ps->fl; auto& f_arr = ps->arr; auto& f_in = ps->in; auto a_b = &ps->in.b; auto& f_parr = ps->parr; auto e_parr = &ps->parr[1];
